@@ -364,6 +364,13 @@ func (m *MTProto) readMsg(conn transport.Transport) error {
 		return nil
 	}
 
+	if _, plain := response.(*messages.Unencrypted); plain {
+		// only the key exchange speaks unencrypted. everything the ordinary handlers act upon (new salt and saving of
+		// session, results of requests, ...) has to be authenticated by the auth key, otherwise anybody who can put
+		// one frame into the stream changes (and stores) state of the session
+		return errors.New("unencrypted message outside of key exchange")
+	}
+
 	err = m.processResponse(response)
 	if err != nil {
 		return errors.Wrap(err, "processing response")
